@@ -151,10 +151,15 @@ type C04Mixed struct {
 	Streams   []StreamPlan `json:"streams"`
 	CloseEnd  bool         `json:"close_end"`
 	Neighbour bool         `json:"neighbour,omitempty"`
+	// Handshakes: the session's obfuscator is built the way a busy server builds
+	// it - by one of several tasks calling MakeObfuscator at the same time (the
+	// connections of this session, a connection of another one), after an earlier
+	// session with another key
+	Handshakes bool `json:"handshakes,omitempty"`
 }
 
 func genC04Mixed(g *Gen) any {
-	sc := &C04Mixed{RefServer: g.Bool(0.5), PatKey: g.Rng.Uint64(), CloseEnd: g.Bool(0.5)}
+	sc := &C04Mixed{RefServer: g.Bool(0.5), PatKey: g.Rng.Uint64(), CloseEnd: g.Bool(0.5), Handshakes: g.Bool(0.3)}
 	sc.Sess = genSessParams(g, 4)
 	sc.Sess.LateConns, sc.Sess.LateAfter, sc.Sess.Stalls = false, nil, nil
 	ns := g.Int(1, 4)
@@ -196,6 +201,31 @@ func runC04Mixed(c *Ctx, scAny any) {
 	obf, err := mux.MakeObfuscator(p.Method, key)
 	if err != nil {
 		panic(err)
+	}
+	if sc.Handshakes {
+		earlier := key
+		earlier[0] ^= 0xff
+		mux.MakeObfuscator(p.Method, earlier)
+		made := 0
+		for i := 0; i < 3; i++ {
+			i := i
+			simsync.Go("h:make-obfuscator", func() {
+				k := key
+				if i == 2 {
+					k[1] ^= 0x55 // another session's connection
+				}
+				o, err := mux.MakeObfuscator(p.Method, k)
+				if err == nil && i == int(sc.PatKey%2) {
+					obf = o
+				}
+				made++
+			})
+		}
+		c.Drive(func() bool { return made == 3 })
+		if c.Failed() {
+			return
+		}
+		c.Probe("obfuscator_built_among_concurrent_handshakes")
 	}
 	sesh := mux.MakeSession(9, mux.SessionConfig{Obfuscator: obf, MsgOnWireSizeLimit: p.WireLimit, InactivityTimeout: 3600e9})
 	peer := NewRefPeer(p.Method, key, p.WireLimit, c.Rng.Uint64())
